@@ -8,6 +8,13 @@ import glob, json, os, shutil, subprocess, sys, tempfile
 ROOT = os.path.dirname(os.path.dirname(os.path.abspath(__file__)))
 sys.path.insert(0, ROOT)
 from props import PROPS
+import atexit, glob as _glob, shutil as _shutil
+# EVID_BACKUP: runs against a changed tree must not leave their evidence files behind in /verif/evidence
+_evid = {f: open(f).read() for f in _glob.glob(os.path.join(ROOT, 'evidence', '*.json'))}
+def _restore():
+    for f, c in _evid.items():
+        open(f, 'w').write(c)
+atexit.register(_restore)
 src, sid = os.path.abspath(sys.argv[1]), sys.argv[2]
 meta = json.load(open(os.path.join(src, "meta.json")))
 target = meta.get("property", sid[:3])
